@@ -369,7 +369,10 @@ def table_logits(case):
         return [[GRID[case["table"][t][v]] + (_jit(t, v) if jit else 0.0) for v in range(V)] + [0.0] for t in range(T)]
     rng = random.Random(case["rand"])
     sc = case.get("scale", 1.5)
-    return [[rng.gauss(0.0, sc) for _ in range(V + 1)] for _ in range(T)]
+    out = [[rng.gauss(0.0, sc) for _ in range(V + 1)] for _ in range(T)]
+    for t, v in case.get("zero", []):  # labels (or the blank, v = V) of probability exactly 0 in a frame: logit -inf
+        out[t][v] = -INF
+    return out
 
 
 def check_search_single(case):
@@ -638,6 +641,11 @@ def cases_exact(ctx):
         for w in widths:
             yield {"V": V, "T": T, "width": w, "rand": 11 + T + 10 * V, "lens": False}  # lens=None call form
             yield {"V": V, "T": T, "width": w, "rand": 12 + T + 10 * V, "dtype": "f32"}
+    # probabilities of exactly 0 (a -inf logit) under beams wider than the live candidates: -inf fillers times 0 must not turn into NaN
+    for T, V, zero in ((3, 2, [(1, 1)]), (3, 2, [(1, 2)]), (3, 2, [(0, 0), (2, 1)]), (2, 2, [(1, 0)]), (3, 1, [(1, 0)]), (4, 1, [(2, 1)])):
+        R = reachable(T, V)
+        for w in (R, R + 1, V + 2, V + 3, 14):
+            yield {"V": V, "T": T, "width": w, "rand": 70 + T + 10 * V + len(zero), "zero": zero}
     if not ctx.quick:
         rng = random.Random(ctx.seed * 1000003 + 51)
         for _ in range(6000):
